@@ -617,6 +617,13 @@ impl TypeCheckerState {
     /// Gets all of the values that are registered with the unifier state.
     #[must_use]
     pub fn values(&self) -> Vec<&TCBoxedVal> {
+        #[cfg(feature = "verif-hooks")]
+        if crate::verif_hooks::active() {
+            let mut values: Vec<&TCBoxedVal> = self.expressions.values().collect();
+            crate::verif_hooks::permute_by("tc.values", &mut values, |v| v.type_var());
+            return values;
+        }
+
         self.expressions.values().collect()
     }
 
@@ -624,6 +631,13 @@ impl TypeCheckerState {
     /// state.
     #[must_use]
     pub fn variables(&self) -> Vec<TypeVariable> {
+        #[cfg(feature = "verif-hooks")]
+        if crate::verif_hooks::active() {
+            let mut variables: Vec<TypeVariable> = self.inferences.keys().copied().collect();
+            crate::verif_hooks::permute_by("tc.variables", &mut variables, |v| *v);
+            return variables;
+        }
+
         self.inferences.keys().copied().collect()
     }
 
